@@ -30,6 +30,15 @@ static int c07_sink_puts(const char *s) { (void) s; return 0; }
 
 struct l1s_state l1s;
 
+/* the static helpers can be called directly only where the translation unit defines them (props/C07.py passes what
+ * gen/hopping.py found); without them the same questions are asked through rfch_get_params() where that is possible */
+#ifndef C07_HAVE_SEQ_GEN
+#define C07_HAVE_SEQ_GEN 1
+#endif
+#ifndef C07_HAVE_PNM
+#define C07_HAVE_PNM 1
+#endif
+
 #define MA_CAP (sizeof(l1s.dedicated.h1.ma) / sizeof(l1s.dedicated.h1.ma[0]))
 
 static char line[1 << 16];
@@ -95,9 +104,31 @@ int main(void)
 		} else if (sscanf(line, "hop.fwmai %lu %lu %lu %lu %lu %lu %lu",
 				  &a[0], &a[1], &a[2], &a[3], &a[4], &a[5], &a[6]) == 7) {
 			t.t1 = a[0]; t.t2 = a[1]; t.t3 = a[2]; t.fn = a[3];
+#if C07_HAVE_SEQ_GEN
 			printf("ok %d\n", (int) rfch_hop_seq_gen(&t, a[4], a[5], a[6], NULL));
+#else
+			/* the index itself, through the public entry point: a mobile allocation whose k-th entry is k */
+			if (a[6] >= 1 && a[6] <= MA_CAP && a[4] < 256 && a[5] < 256) {
+				unsigned q;
+				memset(&l1s, 0, sizeof(l1s));
+				l1s.dedicated.type = GSM_DCHAN_TCH_F;
+				l1s.dedicated.h = 1;
+				l1s.dedicated.h1.hsn = a[4];
+				l1s.dedicated.h1.maio = a[5];
+				l1s.dedicated.h1.n = a[6];
+				for (q = 0; q < MA_CAP; q++)
+					l1s.dedicated.h1.ma[q] = q;
+				rfch_get_params(&t, &arfcn, NULL, NULL);
+				printf("ok %u\n", arfcn);
+			} else
+				printf("skip\n");
+#endif
 		} else if (sscanf(line, "hop.fwpnm %lu", &a[0]) == 1) {
+#if C07_HAVE_PNM
 			printf("%d\n", pow_nbin_mask((int) a[0]));
+#else
+			printf("skip\n");
+#endif
 		} else if (sscanf(line, "o.setfh %lu %lu %32767s", &a[0], &a[1], mabuf) == 3) {
 			memset(&l1s, 0, sizeof(l1s));
 			k = parse_ma(mabuf);
